@@ -64,10 +64,10 @@ def write_replay(pid, seed, k, payload):
 
 
 def _same_err_kinds(o):
-    """copy of a result with every `"err": <kind>` replaced by `"err": "Error"` (whether something raised is
+    """copy of a result with every `"err": <kind>` / `"raised": <kind>` replaced by `"Error"` (whether something raised is
     compared, which exception class it raised is not)"""
     if isinstance(o, dict):
-        return {k: ("Error" if (k == "err" and isinstance(v, str)) else _same_err_kinds(v)) for k, v in o.items()}
+        return {k: ("Error" if (k in ("err", "raised") and isinstance(v, str)) else _same_err_kinds(v)) for k, v in o.items()}
     if isinstance(o, list):
         return [_same_err_kinds(v) for v in o]
     return o
